@@ -80,7 +80,17 @@ func Features() check.Family {
 	return check.Family{Name: "l2-features", Cases: spec.L2Features(), PerService: 4, CompileOnly: true}
 }
 
+// PayloadValidationPairs / ResultValidationPairs: cross-talk between two attributes' rules.
+func PayloadValidationPairs() check.Family {
+	return check.Family{Name: "val-pairs-p", Cases: spec.L1ValidationPairs("payload")}
+}
+
+// ResultValidationPairs is the response-side counterpart.
+func ResultValidationPairs() check.Family {
+	return check.Family{Name: "val-pairs-r", Cases: spec.L1ValidationPairs("result")}
+}
+
 // All lists every family (C01, C07, C09 run over all of them).
 func All(thorough bool) []check.Family {
-	return []check.Family{PayloadSingle(), PayloadPair(thorough), ResultSingle(), ResultPair(thorough), ResultStatus(), PayloadValidation(thorough), ResultValidation(thorough), Errors(), Security(thorough), Views(thorough), Features(), StressAttrs(thorough), StressNames(thorough)}
+	return []check.Family{PayloadSingle(), PayloadPair(thorough), ResultSingle(), ResultPair(thorough), ResultStatus(), PayloadValidation(thorough), ResultValidation(thorough), Errors(), Security(thorough), Views(thorough), Features(), StressAttrs(thorough), StressNames(thorough), PayloadValidationPairs(), ResultValidationPairs()}
 }
